@@ -44,6 +44,10 @@ pub enum Strategy {
     Sticky { seed: u64, stay: u64 },
     /// follow `prefix` (indices into the sorted runnable set), then never preempt
     Prefix { prefix: Vec<usize> },
+    /// delay-site sweep: whenever a worker reaches the event `site`, it is parked until some
+    /// other worker has completed one whole client operation (or nobody else can run); applied at
+    /// every occurrence, so a retry loop that comes back to the site is parked again
+    Stall { site: String },
 }
 
 #[derive(Clone, Debug)]
@@ -107,6 +111,10 @@ struct Inner {
     monitor: Option<Monitor>,
     jitter: u64,
     aborted: bool,
+    /// event at which the current decision is taken (for the delay-site strategy)
+    last_event: String,
+    /// worker parked by the delay-site strategy
+    stalled: Option<usize>,
 }
 
 pub struct Sched {
@@ -180,6 +188,8 @@ pub fn sched() -> &'static Arc<Sched> {
                 monitor: None,
                 jitter: 0,
                 aborted: false,
+                last_event: String::new(),
+                stalled: None,
             }),
             cv: Condvar::new(),
             edges: Mutex::new(BTreeSet::new()),
@@ -200,7 +210,37 @@ pub fn unmanaged<T>(f: impl FnOnce() -> T) -> T {
 impl Sched {
     fn choose(inner: &mut Inner, runnable: &[usize], current: Option<usize>) -> usize {
         debug_assert!(!runnable.is_empty());
+        let stall_site: Option<String> =
+            if let Strategy::Stall { site } = &inner.strategy { Some(site.clone()) } else { None };
         let chosen = match &inner.strategy {
+            Strategy::Stall { .. } => {
+                let site = stall_site.unwrap_or_default();
+                let at_site = inner.last_event == site;
+                let op_done = inner.last_event == "client:between_ops";
+                match current {
+                    // park the worker that just reached the site, if somebody else can run
+                    Some(c) if at_site && runnable.iter().any(|w| *w != c) => {
+                        inner.stalled = Some(c);
+                        *runnable.iter().find(|w| **w != c).unwrap()
+                    }
+                    // another worker finished an operation: the parked one continues
+                    Some(_) if op_done && inner.stalled.is_some_and(|s| runnable.contains(&s)) => {
+                        inner.stalled.take().unwrap()
+                    }
+                    Some(c) if runnable.contains(&c) => c,
+                    _ => {
+                        // the running worker finished (current = None) or is parked on a lock
+                        let finished = current.is_none();
+                        match inner.stalled {
+                            Some(s) if runnable.contains(&s) && (finished || runnable.len() == 1) => {
+                                inner.stalled = None;
+                                s
+                            }
+                            _ => *runnable.iter().find(|w| Some(**w) != inner.stalled).unwrap_or(&runnable[0]),
+                        }
+                    }
+                }
+            }
             Strategy::Random { .. } => runnable[inner.rng.usize(runnable.len())],
             Strategy::Sticky { stay, .. } => {
                 let stay = *stay;
@@ -345,6 +385,7 @@ impl Sched {
         }
         if g.serial {
             self.run_monitor(&mut g, w, &ev);
+            g.last_event = ev;
             self.switch_from(g, w, true);
         } else {
             let j = g.jitter;
@@ -367,6 +408,7 @@ impl Sched {
             return false;
         }
         g.state[w] = WState::Blocked(id);
+        g.last_event = "blocked".to_string();
         if g.out.events.len() < 100_000 {
             g.out.events.push((w, "blocked".to_string()));
         }
@@ -458,7 +500,7 @@ pub fn run(
         let mut g = s.m.lock().unwrap();
         let seed = match &strategy {
             Strategy::Random { seed } | Strategy::Sticky { seed, .. } => *seed,
-            Strategy::Prefix { .. } => 0,
+            Strategy::Prefix { .. } | Strategy::Stall { .. } => 0,
         };
         *g = Inner {
             active: true,
@@ -476,6 +518,8 @@ pub fn run(
             monitor,
             jitter,
             aborted: false,
+            last_event: String::new(),
+            stalled: None,
         };
     }
     let mut handles = Vec::new();
